@@ -179,6 +179,41 @@ def opt(prog, cg):
                           VIOLATED if bad else DISCHARGED,
                           'statements controlled by a reporting option affect assembly: ' + '; '.join(bad[:3]) if bad else '',
                           'controls only reporting statements (%d control-dependent blocks)' % len(controlled)))
+    # the handlers that *set* a reporting option (command line parsing): the statements that run together with the
+    # assignment of the option do nothing else to the assembler (no call into the repo, no store to other state)
+    for fn in prog.functions(lambda f: f.file.startswith('main/naken_asm')):
+        if not fn.blocks:
+            continue
+        hk = 0
+        for n in sorted(fn.nodes.values(), key=lambda x: x['i']):
+            if n['k'] != 'IfStmt':
+                continue
+            ks = [x for x in kids(n) if x is not None]
+            if len(ks) < 2:
+                continue
+            then = ks[1]
+            sets = [x for x in walk(then) if x['k'] == 'BinaryOperator' and x.get('op') == '=' and
+                    strip(kids(x)[0])['k'] == 'MemberExpr' and strip(kids(x)[0]).get('n') in OPTION_FIELDS and
+                    strip(kids(x)[0]).get('rec') == 'AsmContext']
+            # only the innermost if that holds the assignment directly
+            if not sets or any(y['k'] == 'IfStmt' and any(z['i'] == sets[0]['i'] for z in walk(y)) for y in walk(then) if y is not then):
+                continue
+            hk += 1
+            bad = []
+            for x in walk(then):
+                if x['k'] in ('CallExpr', 'CXXMemberCallExpr') and ckey(x) in prog.by_key and \
+                        not prog.by_key[ckey(x)].file.startswith('main/naken_asm'):
+                    bad.append('calls %s at line %d' % (ckey(x), x['l']))
+                elif x['k'] in ('BinaryOperator', 'CompoundAssignOperator') and x.get('op', '').endswith('=') and \
+                        x['op'] not in ('==', '!=', '<=', '>='):
+                    t = strip(kids(x)[0])
+                    if t['k'] == 'MemberExpr' and t.get('rec') in ('AsmContext', 'Memory', 'Symbols', 'Macros') and \
+                            t['n'] not in OPTION_FIELDS:
+                        bad.append('assigns %s::%s at line %d' % (t['rec'], t['n'], x['l']))
+            opts = '+'.join(sorted({strip(kids(x)[0]).get('n') for x in sets}))
+            obs.append(Ob('R-OPT', fn.file, n['l'], fn.q, 'option-handler#%d:%s' % (hk, opts), VIOLATED if bad else DISCHARGED,
+                          'the command line handler of the reporting option %s also changes the assembler: %s' % (opts, '; '.join(bad[:3])) if bad else '',
+                          'the handler only records the option', False))
     return RuleResult('R-OPT', obs, 8, {})
 
 
